@@ -53,7 +53,8 @@ def build(case):
     f = file('acme/auto/v1/auto.proto', P, messages=msgs, services=[service('Auto', meths)])
     y = 'type: google.api.Service\nconfig_version: 3\nname: auto.example.com\npublishing:\n  method_settings:\n'
     for sel, fields_ in case['settings']:
-        y += f'  - selector: {P}.Auto.{sel}\n    auto_populated_fields:\n' + ''.join(f'    - {x}\n' for x in fields_)
+        full = sel[4:] if sel.startswith('RAW:') else f'{P}.Auto.{sel}'
+        y += f'  - selector: {full}\n    auto_populated_fields:\n' + ''.join(f'    - {x}\n' for x in fields_)
     req = request([f], 'transport=grpc+rest,autogen-snippets=false,service-yaml=@svc.yaml@')
     desc.gate(req)
     return req, {'svc.yaml': y}
@@ -75,6 +76,10 @@ def cases():
                         accept=False, drive=[]))
     out.append(dict(id='method/missing', fields=[('request_id', GOOD)], methods={'Do': 'unary'}, settings=[('Nope', ['request_id'])],
                     accept=False, drive=[]))
+    for cid, sel in (('method/other-version', 'acme.auto.v2.Auto.Do'), ('method/other-package', 'acme.otto.v1.Auto.Do'),
+                     ('method/unqualified', 'Auto.Do'), ('method/foreign-api', 'google.longrunning.Operations.GetOperation')):
+        out.append(dict(id=cid, fields=[('request_id', GOOD)], methods={'Do': 'unary'}, settings=[('RAW:' + sel, ['request_id'])],
+                        accept=False, drive=[]))
     out.append(dict(id='field/missing', fields=[('request_id', GOOD)], methods={'Do': 'unary'}, settings=[('Do', ['no_such_field'])],
                     accept=False, drive=[]))
     out.append(dict(id='duplicate-selector', fields=[('request_id', GOOD)], methods={'Do': 'unary'},
